@@ -431,10 +431,55 @@ pub fn run(ctx: &Ctx, evidence: Option<&PathBuf>) -> i32 {
         check_with_prefixes(c, &b, 400);
     });
 
+    // ---- more pairs than any 16-bit quantity (size_hint must stay an upper bound) ---------------
+    ctx.run_fixed("many-pairs", 3, |c| {
+        let b: Vec<u8> = match c.index {
+            0 => vec![0u8; 80_000],                                        // 40 000 empty pairs
+            1 => [1u8, 0, b'x'].iter().copied().cycle().take(210_000).collect(), // 70 000 pairs "x" = ""
+            _ => vec![0u8; 65_536 + 2],
+        };
+        c.l.evaluations += 1;
+        match check_decode(&b) {
+            Ok(n) => c.l.add("pairs_in_many_pair_inputs", n as u64),
+            Err((sig, msg)) => c.violation(format!("many-pairs:{sig}"), Json::obj().with("input_len", b.len()).with("problem", msg)),
+        }
+    });
+
     // ---- over-long lengths must be rejected by the encoder (native only: 2 GiB zero pages) --
     if ctx.scale == Scale::Full {
         ctx.run_fixed("overlong", 1, |c| {
             let big: Vec<u8> = vec![0u8; 1usize << 31];
+            // the length prefix of every large pair, byte for byte (a writer that keeps only the head)
+            struct Head {
+                head: Vec<u8>,
+                total: usize,
+            }
+            impl io::Write for Head {
+                fn write(&mut self, b: &[u8]) -> io::Result<usize> {
+                    let room = 16usize.saturating_sub(self.head.len());
+                    self.head.extend_from_slice(&b[..b.len().min(room)]);
+                    self.total += b.len();
+                    Ok(b.len())
+                }
+                fn flush(&mut self) -> io::Result<()> {
+                    Ok(())
+                }
+            }
+            for &len in &[1usize << 16, (1 << 24) - 1, 1 << 24, (1 << 24) + 1, (1 << 25) + 5, (1 << 28) + 0x0123_4567, (1 << 30) + 7, (1usize << 31) - 1] {
+                for name_side in [true, false] {
+                    let (n, v): (&[u8], &[u8]) = if name_side { (&big[..len], b"v") } else { (b"n", &big[..len]) };
+                    let mut w = Head { head: Vec::new(), total: 0 };
+                    let r = guarded(|| nv::write((n, v), &mut w));
+                    let mut want = Vec::new();
+                    wire::varint(&mut want, n.len() as u32, false);
+                    wire::varint(&mut want, v.len() as u32, false);
+                    c.l.count("large_length_prefixes_checked");
+                    let ok = matches!(&r, Ok(Ok(k)) if *k == want.len() + n.len() + v.len() && *k == w.total) && w.head.starts_with(&want);
+                    if !ok {
+                        c.violation("large-length-prefix", Json::obj().with("name_len", n.len()).with("value_len", v.len()).with("got", format!("{r:?}")).with("prefix_hex", crate::json::hex(&w.head[..w.head.len().min(8)])).with("expected_hex", crate::json::hex(&want)));
+                    }
+                }
+            }
             let cases: [(&[u8], &[u8], bool); 4] = [
                 (&big[..], b"", false),
                 (b"x", &big[..], false),
